@@ -165,6 +165,11 @@ fn run_expr(ctx: &mut Ctx, ev: Option<&Ev>, n: usize, leaves: &[Vec<CubeM>], pro
                 Tok::And | Tok::Or => {
                     let (b, fb) = stack.pop().expect("harness: stack");
                     let (a, fa) = stack.pop().expect("harness: stack");
+                    // one object on both sides: a op a denotes a (and is irredundant like every result)
+                    if step == prog.len() - 1 {
+                        let same = if *t == Tok::And { &a & &a } else { &a | &a };
+                        log.push((format!("step {} aliased {}", step, if *t == Tok::And { "&a & &a" } else { "&a | &a" }), same, fa.clone(), true, true));
+                    }
                     let (rs, want): ([Sop; 4], Vec<bool>) = if *t == Tok::And {
                         ([&a & &b, &a & b.clone(), a.clone() & &b, a.clone() & b.clone()],
                          fa.iter().zip(fb.iter()).map(|(x, y)| *x && *y).collect())
